@@ -40,7 +40,7 @@ def gen_cases(tier, seed):
             d["delays"] = "none"
             d["policy"] = r.choice(["mixed", "all", "one", "subset", "newest"])
         elif mode == "errors":
-            d["faults"] = {"p": r.choice([0.1, 0.3, 0.6, 1.0]), "kinds": ["exc", "value", "base", "kbi", "sysexit"]}
+            d["faults"] = {"p": r.choice([0.1, 0.3, 0.6, 1.0]), "kinds": ["exc", "value", "base", "kbi", "sysexit", "callerr"]}
             d["max_errors"] = r.choice([None, 0, 1, 2, 5])
             d["perturb"] = r.choice(["instr", "none"]) if W > 1 else "none"
         elif mode == "retry":
